@@ -87,15 +87,20 @@ def gen_space(space, negative_bcoh=False):
             x = np.concatenate([x[len(x) // 2:], x[:len(x) // 2]]) if rng.random() < 0.5 else x[::-1].copy()
             gk = gk + "-unsorted"
         X = kinds[int(rng.integers(0, len(kinds)))]
-        y, dk = data(rng, x, base=BASE[X])
+        y, dk = data(rng, x, kind="ints" if rng.random() < 0.15 else None, base=BASE[X])
         if rng.random() < 0.3:
             # reduced function exactly zero at some points (tails decayed to the baseline, zero crossings on grid points)
             y = y.copy()
             y[rng.random(len(y)) < 0.3] = BASE[X]
         dy = unc(rng, x)
         kw = material(rng, negative_bcoh=negative_bcoh)   # C03 quantifies over all <b_coh>^2 != 0 (partial weights c_i c_j b_i b_j can be negative); C04/C06 over <b_coh>^2 > 0
+        # whole-number data may arrive in an integer array, signed or unsigned (counts, 0/1/2 step models): same values, same results
+        int_inputs = bool(rng.random() < 0.6 and dk == "ints")
+        int_dtype = str(rng.choice(["int64", "int32", "uint8", "uint16", "uint32", "uint64"])) if int_inputs else None
+        if int_dtype and int_dtype.startswith("u"):
+            y = np.abs(y)
         return dict(space=space, X=X, x=tolist(x), y=tolist(y), dy=tolist(dy), kw=kw, grid=gk, data=dk,
-                    int_inputs=bool(rng.random() < 0.1 and dk == "ints"))
+                    int_inputs=int_inputs, int_dtype=int_dtype)
     return gen
 
 
@@ -112,7 +117,7 @@ def evaluate_values(case):
     under = (spec_toS if space == "R" else spec_tog)(X, x, y, kw)
     mk = spec_from_S if space == "R" else spec_from_g
     if case.get("int_inputs"):
-        xs, ys = x, y.astype(int)
+        xs, ys = x, y.astype(case.get("int_dtype") or "int64")
     else:
         xs, ys = x, y
     with np.errstate(all="ignore"):
